@@ -572,29 +572,56 @@ func r12_6(c *Ctx) {
 		}
 		c.check(waitOK, rn+":wait", P.ipos(ret), "the granted wait is nextInterval's result", "the granted wait is not the jittered current interval")
 	}
-	// (b) limit test precedes increment: the increment is dominated by the false edges of the limit tests
-	if len(incs) == 1 {
-		limited := false
-		for _, ifi := range ifsIn(nx) {
-			cnd := decodeIf(ifi)
-			if cnd.Y == nil {
-				continue
-			}
-			_, xn := isFieldLoad(cnd.X, "backoffController", "numRetries")
-			_, ym := isFieldLoad(cnd.Y, "Backoff", "MaxRetries")
-			_, yn := isFieldLoad(cnd.Y, "backoffController", "numRetries")
-			_, xm := isFieldLoad(cnd.X, "Backoff", "MaxRetries")
-			if (xn && ym) || (yn && xm) {
-				if cnd.Op == token.EQL || cnd.Op == token.GEQ || cnd.Op == token.LEQ {
-					stopEdge := cnd.succWhen(true)
-					if edgeDominates(ifi.Block(), 1-stopEdge, incs[0].Block()) || !reachesFromEdge(ifi.Block(), stopEdge, incs[0]) {
-						limited = true
+	// (b) limit semantics by constant propagation over two cells (works through extracted predicates):
+	//     MaxRetries=3, numRetries=3  => every reachable return refuses and the count stays 3;
+	//     MaxRetries=3, numRetries=2 (no elapsed limit) => every reachable return grants and the count becomes 3.
+	{
+		cellB := func(field string) func(ssa.Value) bool {
+			return func(addr ssa.Value) bool { _, ok := isFieldSel(addr, "Backoff", field); return ok }
+		}
+		cellN := func(addr ssa.Value) bool { _, ok := isFieldSel(addr, "backoffController", "numRetries"); return ok }
+		run := func(count int64) (*sccpResult, bool, bool, bool) {
+			res := sccp(nx, nil, []sccpCellSpec{
+				{Name: "MaxRetries", IsCell: cellB("MaxRetries"), Seed: constant.MakeInt64(3)},
+				{Name: "numRetries", IsCell: cellN, Seed: constant.MakeInt64(count)},
+				{Name: "MaxElapsedTime", IsCell: cellB("MaxElapsedTime"), Seed: constant.MakeInt64(0)},
+			}, nil)
+			allRefuse, allGrant, any := true, true, false
+			for ret := range res.Exit {
+				any = true
+				for _, sv := range sources(ret.Results[1]) {
+					b, isC := constBool(sv)
+					if !isC {
+						allRefuse, allGrant = false, false
+						continue
+					}
+					if b {
+						allRefuse = false
+					} else {
+						allGrant = false
 					}
 				}
 			}
+			return res, any && allRefuse, any && allGrant, any
 		}
-		c.check(limited, name+":limit-before-increment", P.ipos(incs[0]), "the MaxRetries limit is tested against the count before it is incremented, and reaching the limit skips the increment",
-			"the retry count is not compared with MaxRetries before being incremented")
+		res1, refuse, _, any1 := run(3)
+		stay := any1
+		for _, st := range res1.Exit {
+			if !st[1].isConst(constant.MakeInt64(3)) {
+				stay = false
+			}
+		}
+		c.check(refuse && stay, name+":limit-reached", P.pos(nx.Pos()), "with numRetries == MaxRetries (> 0) every reachable return refuses and the count is not incremented",
+			"with numRetries == MaxRetries a retry can still be granted (or the count is incremented before the test): more than MaxRetries attempts are made")
+		res2, _, grant, any2 := run(2)
+		inc := any2
+		for _, st := range res2.Exit {
+			if !st[1].isConst(constant.MakeInt64(3)) {
+				inc = false
+			}
+		}
+		c.check(grant && inc, name+":limit-not-reached", P.pos(nx.Pos()), "below the limit every reachable return grants the retry and the count becomes count+1",
+			"below the limit (numRetries=2 < MaxRetries=3, no elapsed-time limit) next() refuses, or does not count the retry by exactly one")
 	}
 	// (c) growth: stored value is growInterval(load interval, load MaxInterval, load Multiplier); wait computed from pre-growth interval
 	gOK := growStore != nil && growIv != nil && growStore.Val == ssa.Value(growIv)
@@ -639,7 +666,15 @@ func r12_6(c *Ctx) {
 				continue
 			}
 			add, ok := sum.(*ssa.BinOp)
-			if !ok || add.Op != token.ADD || (op != token.GTR && op != token.GEQ) {
+			if !ok || add.Op != token.ADD {
+				continue
+			}
+			refuseWhenTrue := true
+			switch op {
+			case token.GTR, token.GEQ:
+			case token.LEQ, token.LSS:
+				refuseWhenTrue = false
+			default:
 				continue
 			}
 			found = true
@@ -653,7 +688,7 @@ func r12_6(c *Ctx) {
 			}
 			if waitVal != nil && ((isElapsed(add.X) && add.Y == waitVal) || (isElapsed(add.Y) && add.X == waitVal)) {
 				// the refusing edge leads only to refusing returns
-				refuse := cnd.succWhen(true)
+				refuse := cnd.succWhen(refuseWhenTrue)
 				okRef := true
 				forward([]startPoint{atEdge(ifi.Block(), refuse)}, func(in ssa.Instruction) searchAction {
 					if r, ok := in.(*ssa.Return); ok && len(r.Results) == 2 {
